@@ -123,6 +123,26 @@ def run(cx):
             for st in outs["fall"] + outs["ret"]:
                 run_.at_end(st)
             n += 1
+            # the frequency the call supplies is the frequency the command uses: a given value (0 included) is never
+            # replaced by the remembered last frequency, an omitted one always is
+            if "frequency" in kw and cname in ("BuzzerBeep", "BuzzerPlayTone"):
+                fdecl = [st for st in cxx.all_stmts(body) if st["k"] == "decl" and st["name"] in ("__redu_freq_target", "__redu_freq") and st["init"] is not None]
+                if not fdecl:
+                    raise AnalysisError(f"{cname}: the frequency variable of the command was not found")
+                init = fdecl[0]["init"]
+                uses_last = any(s_[0] == "var" and str(s_[1]).startswith("__buzzer_last_") for s_ in sub_exprs(init))
+                core = init
+                while core[0] in ("cast", "ctor") and (core[0] == "cast" or len(core[2]) == 1):
+                    core = core[2] if core[0] == "cast" else core[2][0]
+                given = kw["frequency"]
+                if given is None:
+                    okf = uses_last
+                elif isinstance(given, str):
+                    okf = not uses_last and core == ("var", given)
+                else:
+                    okf = not uses_last and core[0] == "lit" and float(core[1]) == float(given)
+                if not okf:
+                    run_.viol.append(("frequency-argument-reaches-the-command", f"frequency={given!r} but the command's frequency is initialised with `{show(init)}`" + (" (a given 0 must stay 0: a frequency <= 0 never starts a tone)" if given == 0 else "")))
             for k, msg in run_.viol:
                 r_tone.fail(f"{cname}/{k}", (em, em.func("_emit_block")), f"{label}: {msg}")
             if not run_.viol:
@@ -245,6 +265,7 @@ def run(cx):
     # ---- C16-BIND (shared with C08) --------------------------------------------------------------
     from . import c08
     c08.bind_rule(cx, "C16-BIND", "C16-MAP", only=("Buzzer",), floor=30)
+    c08.rule_field_flow(cx, "C16-FIELDS", devices=("Buzzer",))
 
     # ---- C16-GETTERS -------------------------------------------------------------------------
     r = cx.rule("C16-GETTERS", "get_state/get_frequency/get_last_frequency name the shadow variables the buzzer commands maintain", floor=3)
